@@ -6,7 +6,7 @@ import re
 class Fn:
     __slots__ = ("tu", "d", "id", "qname", "name", "targs", "sig", "file", "line",
                  "record", "kind", "params", "blocks", "entry", "exit", "vars",
-                 "events", "ev_block", "key", "lambda_", "outer")
+                 "events", "ev_block", "key", "lambda_", "outer", "_shape", "variant")
 
     def __init__(self, tu, d):
         self.tu = tu
@@ -36,13 +36,24 @@ class Fn:
                 self.events[ev["id"]] = ev
                 self.ev_block[ev["id"]] = bid
         self.key = "%s<%s>%s" % (self.qname, self.targs, self.sig)
+        self._shape = None
+        self.variant = ""
+
+    @property
+    def shape(self):
+        """digest of the body: the same function extracted from two configurations (NDEBUG / assert-enabled)
+        is one instance when the bodies agree and two when they differ"""
+        if self._shape is None:
+            import hashlib
+            self._shape = hashlib.md5(json.dumps(self.d.get("blocks", {}), sort_keys=True).encode()).hexdigest()
+        return self._shape
 
     @property
     def label(self):
         t = self.targs
         if len(t) > 90:
             t = t[:87] + "..."
-        return "%s<%s>" % (self.qname, t) if t else self.qname
+        return ("%s<%s>" % (self.qname, t) if t else self.qname) + self.variant
 
     @property
     def loc(self):
@@ -62,6 +73,7 @@ class TU:
         with open(path) as f:
             d = json.load(f)
         self.path = path
+        self.debug = path.endswith("_debug.json")
         self.name = d.get("tu", path)
         self.errors = d.get("errors", False)
         self.fns = {}
@@ -94,14 +106,17 @@ class FactBase:
                 yield fn
 
     def find(self, qname_re=None, name=None, pred=None, dedup=True):
-        seen = set()
+        seen = {}
         out = []
         for tu in self.tus:
             for fn in tu.find(qname_re, name, pred):
                 if dedup:
-                    if fn.key in seen:
+                    shapes = seen.setdefault(fn.key, set())
+                    if shapes and (not tu.debug or fn.shape in shapes):
                         continue
-                    seen.add(fn.key)
+                    if shapes and tu.debug:
+                        fn.variant = " [assert-enabled]"
+                    shapes.add(fn.shape)
                 out.append(fn)
         return out
 
@@ -109,7 +124,13 @@ class FactBase:
         out = {}
         for tu in self.tus:
             for k, v in tu.records.items():
-                out.setdefault(k, v)
+                if k not in out:
+                    out[k] = dict(v)
+                    out[k]["consts"] = dict(v.get("consts", {}))
+                else:
+                    # a static constexpr member is only evaluated in units that use it
+                    for ck, cv in v.get("consts", {}).items():
+                        out[k]["consts"].setdefault(ck, cv)
         return out
 
 
